@@ -164,9 +164,14 @@ def run(case, ctx):
             evals += 1
             if not np.allclose(v, base, rtol=5e-5, atol=1e-8):
                 viols.append(viol(f"{nm}-loss-under-reused-jit", f"a reused jitted {nm} loss gives {v.tolist()} for the reversed storage order, {base.tolist()} eagerly"))
-        # non-default eps of the normalised loss (the R-monitor evaluates the same eps)
+        # non-default eps of the normalised loss (the R-monitor evaluates the eps that was passed), including eps = 0 (a pure
+        # relative error) on targets that are small but bounded away from zero, where the epsilon matters
         ml.normalized_smse_loss(x, y, 1e-2)
-        evals += 1
+        ysmall = mk({t: (0.03 * np.sign(v) * (1.0 + np.abs(v))).astype(np.float32) for t, v in yb.items()}, oy)
+        xsmall = mk({t: (0.03 * v).astype(np.float32) for t, v in xb.items()}, ox)
+        for e_ in (0.0, 0, 1e-5):
+            ml.normalized_smse_loss(xsmall, ysmall, e_)
+        evals += 4
         evals += 3
         for nm, v, base in zip(("smse", "timestep", "normalized"), jl, (vals[("smse", "mean")], vals[("ts", "mean")], vals[("norm", None)])):
             if not np.allclose(v, base, rtol=5e-5, atol=1e-8):
